@@ -1,0 +1,18 @@
+//go:build !verif
+
+/*
+ * Yield/observation points used by the /verif harness. With the verif build tag
+ * off they are empty functions that the compiler removes.
+ */
+
+package z
+
+const (
+	vpAllocAdded      = 1 // Allocate: after the atomic add (observe: pos, sz)
+	vpAllocBeforeLock = 2 // Allocate: bounds check failed, before a.Lock()
+	vpAllocRetry      = 3 // Allocate: after a.Unlock(), before retrying (observe: 0 = someone else grew, 1 = grew)
+	vpAllocDone       = 4 // Allocate: slice cut (observe: bufIdx, posIdx)
+)
+
+func verifPoint(id int)                {}
+func verifObserve(id int, a, b uint64) {}
